@@ -145,10 +145,30 @@ def strip_comments(text):
     return ''.join(out)
 
 
-def forbidden_tokens():
-    """Forbidden constructs outside comments, per file."""
+def import_closure(prop):
+    """Lean source files in the import closure of Props/<prop>.lean (project files only)."""
+    seen = {}
+    todo = ['BufrModel.Props.' + prop]
+    while todo:
+        m = todo.pop()
+        if m in seen:
+            continue
+        path = os.path.join(LEAN, *m.split('.')) + '.lean'
+        if not os.path.exists(path):
+            continue
+        seen[m] = path
+        with open(path) as f:
+            for line in f:
+                mm = re.match(r'\s*import\s+(BufrModel\.[A-Za-z0-9_.]+)', line)
+                if mm:
+                    todo.append(mm.group(1))
+    return sorted(seen.values())
+
+
+def forbidden_tokens(prop=None):
+    """Forbidden constructs outside comments, per file (files in the import closure of the property's theorems)."""
     hits = []
-    for p in lean_sources():
+    for p in (import_closure(prop) if prop else lean_sources()):
         with open(p) as f:
             code = strip_comments(f.read())
         for ln, line in enumerate(code.split('\n'), 1):
